@@ -499,7 +499,8 @@ func getParamsCount(stmt sqlparser.Statement) (int, error) {
 
 func (handler *Handler) handleStatementExecute(ctx context.Context, packet *Packet) (uint32, error) {
 	packetData := packet.GetData()
-	if len(packetData) < 2 {
+	// command byte + 4 bytes of statement id
+	if len(packetData) < 5 {
 		handler.logger.Debug("Execute statement packet has not enough data")
 		return 0, ErrInvalidResponseLength
 	}
@@ -520,6 +521,12 @@ func (handler *Handler) handleStatementExecute(ctx context.Context, packet *Pack
 
 		var err error
 		var queryObj = handler.protocolState.PendingParse()
+		if queryObj == nil {
+			// statement id -1 refers to the last prepared statement, but nothing was prepared on
+			// this connection: let the database answer with its own error
+			log.Error("Can't find pending prepared statement for statement id -1")
+			return 0, nil
+		}
 
 		statement, err = queryObj.Statement()
 		if err != nil {
@@ -637,6 +644,9 @@ func (handler *Handler) processBinaryDataRow(ctx context.Context, rowData []byte
 	// 1 - packet header
 	// 7 + 2 offset from docs
 	pos = 1 + ((len(fields) + 7 + 2) >> 3)
+	if len(rowData) < pos {
+		return nil, base_mysql.ErrMalformPacket
+	}
 	nullBitmap := rowData[1:pos]
 	output = append(output, rowData[:pos]...)
 
@@ -682,27 +692,38 @@ func (handler *Handler) extractData(pos int, rowData []byte, field *ColumnDescri
 		fieldType = field.originType
 	}
 
+	// fixed-size value: must be inside the row
+	fixed := func(size int) ([]byte, int, error) {
+		if pos < 0 || len(rowData)-pos < size {
+			return nil, 0, base_mysql.ErrMalformPacket
+		}
+		return rowData[pos : pos+size], size, nil
+	}
+	if pos > len(rowData) {
+		return nil, 0, base_mysql.ErrMalformPacket
+	}
+
 	switch fieldType {
 	case base_mysql.TypeNull:
 		return []byte{}, 0, nil
 
 	case base_mysql.TypeTiny:
-		return rowData[pos : pos+1], 1, nil
+		return fixed(1)
 
 	case base_mysql.TypeShort, base_mysql.TypeYear:
-		return rowData[pos : pos+2], 2, nil
+		return fixed(2)
 
 	case base_mysql.TypeInt24, base_mysql.TypeLong:
-		return rowData[pos : pos+4], 4, nil
+		return fixed(4)
 
 	case base_mysql.TypeLongLong:
-		return rowData[pos : pos+8], 8, nil
+		return fixed(8)
 
 	case base_mysql.TypeFloat:
-		return rowData[pos : pos+4], 4, nil
+		return fixed(4)
 
 	case base_mysql.TypeDouble:
-		return rowData[pos : pos+8], 8, nil
+		return fixed(8)
 
 	case base_mysql.TypeDecimal, base_mysql.TypeNewDecimal, base_mysql.TypeBit, base_mysql.TypeEnum, base_mysql.TypeSet, base_mysql.TypeGeometry, base_mysql.TypeDate, base_mysql.TypeNewDate, base_mysql.TypeTimestamp, base_mysql.TypeDatetime, base_mysql.TypeTime, base_mysql.TypeVarchar, base_mysql.TypeTinyBlob, base_mysql.TypeMediumBlob, base_mysql.TypeLongBlob, base_mysql.TypeBlob, base_mysql.TypeVarString, base_mysql.TypeString:
 		value, n, err := base_mysql.LengthEncodedString(rowData[pos:])
